@@ -18,10 +18,11 @@ PN = ["p0", "p1", "p2", "p3"]
 class Config:
     """one operator instance configuration: mk(P) builds the operator with P(i) the i-th parameter (float or Sym)"""
 
-    def __init__(self, opname, label, mk, npar, exact_sizes=True, zsym=False):
+    def __init__(self, opname, label, mk, npar, exact_sizes=True, zsym=False, numeric=False):
         self.opname, self.label, self.mk, self.npar = opname, label, mk, npar
         self.size_bounded = not exact_sizes
         self.zsym = zsym
+        self.numeric = numeric      # data-carrying operator instantiated with concrete numeric data (bounded checks only)
 
     @property
     def names(self):
@@ -90,6 +91,44 @@ def _controlled(base, cw, cv):
     return ctrl(base, cw, cv)
 
 
+def _rand_unitary(n, seed):
+    rng = np.random.default_rng(seed)
+    a = rng.normal(size=(n, n)) + 1j * rng.normal(size=(n, n))
+    q, r = np.linalg.qr(a)
+    return q * (np.diag(r) / np.abs(np.diag(r)))
+
+
+def numeric_configs(tier):
+    """data-carrying operators instantiated with concrete numeric data: QubitUnitary, ControlledQubitUnitary, SemiAdder and
+    their controlled versions.  Rules for these branch on the data, so they are only ever checked as bounded stand-ins."""
+    out = []
+    one = {"H": np.array([[1, 1], [1, -1]]) / np.sqrt(2), "S": np.diag([1, 1j]), "T": np.diag([1, np.exp(0.25j * np.pi)]),
+           "RX(0.3)": qp.RX.compute_matrix(0.3), "phase*RY(0.5)": np.exp(0.2j) * qp.RY.compute_matrix(0.5),
+           "rand-U2": _rand_unitary(2, 7), "I": np.eye(2), "Z": np.diag([1.0, -1.0])}
+    two = {"CNOT": qp.CNOT.compute_matrix(), "SWAP": qp.SWAP.compute_matrix(), "RX(x)RY": np.kron(qp.RX.compute_matrix(0.4), qp.RY.compute_matrix(1.1)),
+           "rand-U4": _rand_unitary(4, 11), "rand-U4b": _rand_unitary(4, 23), "IsingXX(0.7)": qp.IsingXX.compute_matrix(0.7),
+           "CRY(0.9)": qp.CRY.compute_matrix(0.9)}
+    for k, U in one.items():
+        out.append(Config("QubitUnitary", f"[{k}]", (lambda P, U=U: qp.QubitUnitary(U, wires=[0])), 0, False, numeric=True))
+        for cv, cl in (([1], "c1"), ([0], "c0"), ([1, 0], "c10"), ([1, 1, 1], "c111")):
+            cw = [10 + j for j in range(len(cv))]
+            out.append(Config("ControlledQubitUnitary", f"[{k},{cl}]",
+                              (lambda P, U=U, cw=cw, cv=cv: qp.ControlledQubitUnitary(U, wires=cw + [0], control_values=cv)), 0, False, numeric=True))
+            if len(cv) >= 2:
+                out.append(Config("ControlledQubitUnitary", f"[{k},{cl},work]",
+                                  (lambda P, U=U, cw=cw, cv=cv: qp.ControlledQubitUnitary(U, wires=cw + [0], control_values=cv, work_wires=[20, 21])),
+                                  0, False, numeric=True))
+    for k, U in two.items():
+        out.append(Config("QubitUnitary", f"[{k}]", (lambda P, U=U: qp.QubitUnitary(U, wires=[0, 1])), 0, False, numeric=True))
+    for ww in ([], [6], [6, 7]):
+        out.append(Config("SemiAdder", f"[3+3,work={len(ww)}]", (lambda P, ww=ww: qp.SemiAdder([0, 1, 2], [3, 4, 5], work_wires=ww)), 0, False, numeric=True))
+        for cww in ([], [8, 9]):
+            out.append(Config("C(SemiAdder)", f"[3+3,work={len(ww)},ctrl-work={len(cww)}]",
+                              (lambda P, ww=ww, cww=cww: qp.ctrl(qp.SemiAdder([0, 1, 2], [3, 4, 5], work_wires=ww), control=[11, 12], work_wires=cww)),
+                              0, False, numeric=True))
+    return out
+
+
 def all_configs(tier):
     """every registry name we can instantiate -> list of Config; plus the list of names we cannot (with reason)"""
     from pennylane.decomposition import decomposition_rule as dr
@@ -123,6 +162,13 @@ def all_configs(tier):
                     cw = [10 + k for k in range(len(cv))]
                     configs.append(Config(name, f"{label}[{cl}]",
                                           (lambda P, mk=mk, wires=wires, cw=cw, cv=cv: _controlled(mk(P, wires), cw, cv)), npar, False))
+    try:
+        nc = numeric_configs(tier)
+        configs += nc
+        for c in nc:
+            skipped.pop(c.opname, None)
+    except Exception as ex:  # pylint: disable=broad-except
+        skipped["numeric data-carrying operators"] = f"builder failed: {type(ex).__name__}: {ex}"
     return configs, skipped
 
 
